@@ -50,6 +50,7 @@ type peer struct {
 	feedCh  chan []byte
 	in      chan elem
 	pw      *io.PipeWriter
+	done    chan struct{} // closed by stop
 	dataErr   bool   // answer data IQs with an error
 	closeMode string // how the peer answers <close/>: "" result, "err" error, "silent" not at all
 	openSilent bool // the peer does not answer <open/> at all
@@ -76,38 +77,58 @@ func newPeer() (*peer, error) {
 		return nil, err
 	}
 	pr, pw := io.Pipe()
-	p := &peer{rs: rs, ctl: ctl, h: &ibb.Handler{}, feedCh: make(chan []byte, 1<<17), in: make(chan elem, 1<<17), pw: pw, openOK: true, replies: map[string]string{}}
-	tee := make(chan []byte, 1<<17)
-	rs.Out.OnWrite = func(b []byte) { tee <- append([]byte(nil), b...) }
+	p := &peer{rs: rs, ctl: ctl, h: &ibb.Handler{}, feedCh: make(chan []byte, 4096), in: make(chan elem, 4096), pw: pw, done: make(chan struct{}), openOK: true, replies: map[string]string{}}
+	// Everything below ends when stop closes p.done: no goroutine (and with it the session, the
+	// decoder and the buffers it references) outlives its case.
+	tee := make(chan []byte, 4096)
+	rs.Out.OnWrite = func(b []byte) {
+		select {
+		case tee <- append([]byte(nil), b...):
+		case <-p.done:
+		}
+	}
 	go func() {
-		for b := range tee {
-			if _, err := pw.Write(b); err != nil {
+		for {
+			select {
+			case b := <-tee:
+				if _, err := pw.Write(b); err != nil {
+					return
+				}
+			case <-p.done:
 				return
 			}
 		}
 	}()
 	go func() {
-		for b := range p.feedCh {
-			if rs.Feed(b) != nil {
+		for {
+			select {
+			case b := <-p.feedCh:
+				if rs.Feed(b) != nil {
+					return
+				}
+			case <-p.done:
 				return
 			}
 		}
 	}()
 	go func() {
+		defer pr.Close()
 		d := xml.NewDecoder(pr)
 		for {
 			tok, err := d.Token()
 			if err != nil {
-				close(p.in)
 				return
 			}
 			if st, ok := tok.(xml.StartElement); ok {
 				var e elem
 				if d.DecodeElement(&e, &st) != nil {
-					close(p.in)
 					return
 				}
-				p.in <- e
+				select {
+				case p.in <- e:
+				case <-p.done:
+					return
+				}
 			}
 		}
 	}()
@@ -121,12 +142,18 @@ func newPeer() (*peer, error) {
 
 func (p *peer) stop() {
 	p.ctl.Kill()
+	close(p.done)
 	p.pw.Close()
 	p.rs.In.Close()
 	common.WithTimeout(200*time.Millisecond, func() { p.rs.S.Close() })
 }
 
-func (p *peer) feed(s string) { p.feedCh <- []byte(s) }
+func (p *peer) feed(s string) {
+	select {
+	case p.feedCh <- []byte(s):
+	case <-p.done:
+	}
+}
 
 func cond(c child) string {
 	for _, i := range c.Inner {
